@@ -193,6 +193,21 @@ Example c19_equal_mtimes_sorted_nonvacuous :
   heap_leb fix18 (entry_of fB) (entry_of fA) = false /\ heap_leb post_fix (entry_of fB) (entry_of fA) = true.
 Proof. exact equal_mtimes_sorted. Qed.
 
+(* C19.9b  KNOWN FINDING D20 (found by asking what the sortedness hypothesis of c19_survivors_are_suffix_partial
+   excludes, then running the real PrefixFileSet at that point): equally old files are deleted in the order of
+   their path TEXT.  The writer names files <prefix>.<second>-<n>; "-10" sorts before "-2", and a suffix freed by a
+   deletion is reused, so among files of equal mtime (file systems with coarse time stamps) the path order is not
+   the creation order: the NEWER file "a-10" is deleted and the older "a-2" kept.  c19_survivors_are_suffix_partial
+   is the property for every directory OUTSIDE that class (its hypothesis: the log files are strictly sorted in the
+   heap order); inside it the clause is refuted: *)
+Theorem c19_name_order_hole_refuted :
+  entry_names (run_ops fix18 [97] ([], mkPset [] 0 []) d20_ops) = [NPre n_a2] /\
+  let before := [mkPfile (NPre n_a2) 5 100; mkPfile (NPre n_a10) 5 100] in
+  oracle_set_creation [NPre n_a2; NPre n_a10] before [NPre n_a10] = false /\
+  kf_c19_equal_mtime_name_order [NPre n_a2; NPre n_a10] before [NPre n_a10] = true /\
+  oracle_set_creation [NPre n_a2; NPre [97; 45; 51]] [mkPfile (NPre n_a2) 5 100; mkPfile (NPre [97; 45; 51]) 5 100] [NPre n_a2] = true.
+Proof. exact name_order_hole_refuted. Qed.
+
 (* C19.10  the oracles of the correspondence check are the boolean form of the theorems.
    c19_oracle_set_sound: on every state in which heap and directory agree (the writer's states;
    the state after PrefixFileSet::new, c19_set_new_good; and, by the conclusion, every state reached
@@ -271,6 +286,7 @@ Print Assumptions c19_prefix_match_refuted.
 Print Assumptions c19_age_delete_underflow_refuted.
 Print Assumptions c19_budget_underflow_refuted.
 Print Assumptions c19_survivors_are_suffix_partial.
+Print Assumptions c19_name_order_hole_refuted.
 Print Assumptions c19_equal_mtimes_hole_refuted.
 Print Assumptions c19_equal_mtimes_fixed.
 Print Assumptions c19_oracle_set_sound.
